@@ -166,6 +166,7 @@ def _nt(ops, meta):
 
 def _own_shards(tier):
     sh = [("shard_oneshot", (r, kl)) for r in (20, 8, 12) for kl in (32, 16)]
+    sh += [("shard_everylen", r) for r in ((20, 8, 12) if tier == "thorough" else (20,))]
     for r in (8, 12, 20):
         for d in ("E", "D"):
             sh.append(("shard_graph", (r, 32, d)))
@@ -197,6 +198,23 @@ def shard_oneshot(arg, tier):
                     cases.append((["aead_new s0 %d %s %s %s" % (rounds, P(kp, 2, kl), P(np_, 5, 12), P(2, 7, al)), "aclone s0 s1",
                                    "aead_enc s0 %s" % P(5, 1, pl), "aead_dec s1 %s %s" % (H(ct), H(tag))],
                                   ["-", "-", "%s.%s" % (obs_of(ct), obs_of(tag)), "T.%s" % obs_of(pt)], None))
+    ck.run(cases, nontrivial=_nt)
+    ck.stats.states = len(cases) + 1
+    return ck.stats
+
+
+def shard_everylen(rounds, tier):
+    """every plaintext length 0..=200 (AAD 0 and 13 bytes) and every AAD length 0..=80 (plaintext 5 bytes), one-shot"""
+    ck = core.Checker(PROPERTY_ID)
+    cases = []
+    key, nonce = pat(6, 2, 32), pat(7, 5, 12)
+    shapes = [(al, pl) for al in (0, 13) for pl in range(0, 201)] + [(al, 5) for al in range(0, 81)]
+    for al, pl in shapes:
+        aad, pt = pat(2, 7, al), pat(5, 1, pl)
+        ct, tag = poly.aead_encrypt(key, nonce, aad, pt, rounds)
+        cases.append((["aead_new s0 %d %s %s %s" % (rounds, P(6, 2, 32), P(7, 5, 12), P(2, 7, al) if al else "h:"), "aclone s0 s1",
+                       "aead_enc s0 %s" % (P(5, 1, pl) if pl else "h:"), "aead_dec s1 %s %s" % (H(ct), H(tag))],
+                      ["-", "-", "%s.%s" % (obs_of(ct), obs_of(tag)), "T.%s" % obs_of(pt)], None))
     ck.run(cases, nontrivial=_nt)
     ck.stats.states = len(cases) + 1
     return ck.stats
